@@ -198,7 +198,7 @@ theorem probe_bounded (h : Host) : (probeRun h).timeouts ≤ probeStages := by
   all_goals omega
 
 theorem stalling_hosts_bounded :
-    probeRun Host.refuse = ⟨none, 1⟩ ∧ probeRun Host.acceptSilent = ⟨none, 1⟩ ∧ probeRun Host.garbage = ⟨none, 0⟩ ∧
+    probeRun Host.refuse = ⟨none, 1⟩ ∧ probeRun Host.acceptSilent = ⟨none, 1⟩ ∧ probeRun Host.garbage = ⟨none, 1⟩ ∧
     probeRun Host.stallMidHandshake = ⟨none, 1⟩ ∧ (∀ id, probeRun (Host.stallMidExchange id) = ⟨none, 1⟩) ∧
     (∀ g, (probeRun (Host.noIdentification g)).info = none) := by
   refine ⟨by decide, by decide, by decide, by decide, fun id => ?_, fun g => ?_⟩
